@@ -399,11 +399,9 @@ def run(tier, seed, proof):
     cases = list(gen_cases(tier, seed))
     ex = concurrent.futures.ThreadPoolExecutor(max_workers=common.NCPU)
     try:
-        futs = [ex.submit(examine_one, c[1]) for c in cases]
-        for (name, scn), fut in zip(cases, futs):
+        for (name, scn), r in zip(cases, common.bounded_map(ex, lambda c: examine_one(c[1]), cases)):
             if len(res.impl_violations) + len(res.divergences) >= 4:
                 break                       # enough evidence of failure: do not run the remaining cases
-            r = fut.result()
             if r["artefact"]:
                 artefacts += 1
                 continue
@@ -445,7 +443,7 @@ def search(tier, seed, proof):
         for j in range(3):
             cases.append((f"search-s{i}-i{j}", with_seed(scn, rng.randrange(1, 1 << 30))))
     with concurrent.futures.ThreadPoolExecutor(max_workers=common.NCPU) as ex:
-        for (name, scn), (v, a) in zip(cases, ex.map(lambda c: impl_fails(c[1]), cases)):
+        for (name, scn), (v, a) in zip(cases, common.bounded_map(ex, lambda c: impl_fails(c[1]), cases)):
             res.evaluations += 1
             if v is not None:
                 record(name, scn, {"viol": v, "div": []}, tier, seed, res)
